@@ -203,6 +203,7 @@ def make_options(
     o.use_builtins_fixtures = fixtures
     o.show_traceback = True
     o.error_summary = False
+    o.python_executable = None  # like --no-site-packages: nothing from the harness' own sys.path
     o.hide_error_codes = False
     if cache_dir is None:
         o.incremental = False
@@ -317,9 +318,9 @@ def cache_listing(root: str, cache_dir: str, store: str, fmt: str, with_bytes: b
         if not os.path.isdir(prefix):
             return []
         if store == "sqlite":
-            if not os.path.exists(os.path.join(prefix, "cache.db")):
+            if not any(n.startswith("cache") and n.endswith(".db") for n in os.listdir(prefix)):
                 return []
-            st: Any = ms.SqliteMetadataStore(prefix)
+            st: Any = ms.SqliteMetadataStore(prefix, num_shards=o.sqlite_num_shards)
         else:
             st = ms.FilesystemMetadataStore(prefix)
         out = []
